@@ -652,6 +652,78 @@ func returnsAllKeysSorted(fn *ssa.Function) (bool, string) {
 		}
 	}
 	if acc == nil {
+		// the other spelling: keys := make([]string, len(m)); keys[n] = k; n++
+		for _, in := range hdr.Instrs {
+			cnt, ok := in.(*ssa.Phi)
+			if !ok {
+				break
+			}
+			good := true
+			for i, e := range cnt.Edges {
+				if lp[hdr.Preds[i]] {
+					b, isB := e.(*ssa.BinOp)
+					k, isK := int64(0), false
+					if isB {
+						k, isK = ConstInt(b.Y)
+					}
+					if !isB || b.Op != token.ADD || b.X != ssa.Value(cnt) || !isK || k != 1 {
+						good = false
+					}
+				} else if k, isK := ConstInt(e); !isK || k != 0 {
+					good = false
+				}
+			}
+			if !good || cnt.Referrers() == nil {
+				continue
+			}
+			for _, ref := range *cnt.Referrers() {
+				ia, isIA := ref.(*ssa.IndexAddr)
+				if !isIA || ia.Index != ssa.Value(cnt) {
+					continue
+				}
+				mk, isMk := ia.X.(*ssa.MakeSlice)
+				if !isMk {
+					continue
+				}
+				// as long as the map: len(param)
+				if lc, isCall := mk.Len.(*ssa.Call); !isCall || BuiltinName(lc) != "len" || lc.Call.Args[0] != ssa.Value(fn.Params[0]) {
+					continue
+				}
+				stored := false
+				for _, r2 := range *ia.Referrers() {
+					if st, isSt := r2.(*ssa.Store); isSt && st.Addr == ssa.Value(ia) && st.Val == key {
+						stored = true
+					}
+				}
+				if !stored {
+					continue
+				}
+				for _, pr := range hdr.Preds {
+					if lp[pr] && pr != ia.Block() && !ia.Block().Dominates(pr) {
+						return false, "an iteration can continue without storing its key"
+					}
+				}
+				for b := range lp {
+					for _, su := range b.Succs {
+						if !lp[su] && b != hdr {
+							return false, "the loop can stop before all keys are collected"
+						}
+					}
+				}
+				for _, ret := range Returns(fn) {
+					from := false
+					for _, src := range append(Sources(ret.Results[0]), ret.Results[0]) {
+						if src == ssa.Value(mk) {
+							from = true
+						}
+					}
+					if !from {
+						return false, "a return does not return the filled slice"
+					}
+				}
+				return true, ""
+			}
+		}
 		return false, "no slice accumulated by append in the loop"
 	}
 	// the appended element is the key
